@@ -199,8 +199,8 @@ func c19OptionField(r *Rand, id int, short rune) c19Field {
 	})
 	opt(30, func() { add("env", fmt.Sprintf("ENV%d", id)) })
 	opt(20, func() { add("env-delim", []string{",", ";", "::", " "}[r.Intn(4)]) })
-	opt(30, func() { add("required", []string{"true", "yes", "1", "false", "no", "0", "", "x"}[r.Intn(8)]) })
-	opt(30, func() { add("optional", []string{"true", "yes", "false", "no", "0", "", "anything"}[r.Intn(7)]) })
+	opt(30, func() { add("required", []string{"true", "yes", "1", "false", "no", "0", "", "x", "False", "NO", "TRUE", "00"}[r.Intn(12)]) })
+	opt(30, func() { add("optional", []string{"true", "yes", "false", "no", "0", "", "anything", "FALSE", "No"}[r.Intn(9)]) })
 	opt(30, func() {
 		for i := r.Range(1, 2); i > 0; i-- {
 			add("optional-value", c19Text(r, id))
@@ -211,7 +211,7 @@ func c19OptionField(r *Rand, id int, short rune) c19Field {
 			add("choice", c19Text(r, id))
 		}
 	})
-	opt(30, func() { add("hidden", []string{"true", "yes", "false", "no", "0", "", "h"}[r.Intn(7)]) })
+	opt(30, func() { add("hidden", []string{"true", "yes", "false", "no", "0", "", "h", "False", "NO", "0.0"}[r.Intn(10)]) })
 	opt(30, func() { add("value-name", c19Text(r, id)) })
 	opt(30, func() { add("default-mask", c19Text(r, id)) })
 	// repeated single-valued keys: the last one counts
@@ -340,7 +340,20 @@ func c19Fidelity(c *Ctx) {
 	}
 	var grpFields []c19Field
 	for i := r.Range(1, 3); i > 0; i-- {
-		grpFields = append(grpFields, c19OptionField(r, next(), nextShort()))
+		f := c19OptionField(r, next(), nextShort())
+		if r.Chance(1, 3) {
+			// a long name / env key that happens to start with the group's own namespace and the delimiter
+			for j := range f.Items {
+				if f.Items[j].K == "long" && lastOf(grpItems, "namespace") != "" {
+					f.Items[j].V = lastOf(grpItems, "namespace") + "." + f.Items[j].V
+				}
+				if f.Items[j].K == "env" && lastOf(grpItems, "env-namespace") != "" {
+					f.Items[j].V = lastOf(grpItems, "env-namespace") + "_" + f.Items[j].V
+				}
+			}
+			f.Tag = renderTag(r, f.Items)
+		}
+		grpFields = append(grpFields, f)
 	}
 	// a command with aliases, its own options and positional arguments
 	cid := next()
@@ -381,7 +394,7 @@ func c19Fidelity(c *Ctx) {
 			p.Items = append(p.Items, kv{"description", c19Text(r, pid)})
 		}
 		if r.Bool() {
-			p.Items = append(p.Items, kv{"required", []string{"yes", "1", "2", "1-3", "0-2", "3-", "x"}[r.Intn(7)]})
+			p.Items = append(p.Items, kv{"required", []string{"yes", "1", "2", "1-3", "0-2", "3-", "x", "-2", "-", "2-x", "0"}[r.Intn(11)]})
 		}
 		p.Slice = i == np-1 && r.Bool()
 		pos = append(pos, p)
@@ -513,6 +526,27 @@ func c19Fidelity(c *Ctx) {
 	}
 	if !checkFields(g.Options(), grpFields, "the nested group") {
 		return
+	}
+	for _, f := range grpFields {
+		o := find(g.Options(), f.Name)
+		if o == nil {
+			continue
+		}
+		wl, we := lastOf(f.Items, "long"), lastOf(f.Items, "env")
+		if ns := lastOf(grpItems, "namespace"); ns != "" && wl != "" {
+			wl = ns + "." + wl
+		}
+		if ens := lastOf(grpItems, "env-namespace"); ens != "" && we != "" {
+			we = ens + "_" + we
+		}
+		if got := o.LongNameWithNamespace(); got != wl {
+			c.Violate("fidelity:namespaced-long-name", "field %s of the nested group (tag `%s`, group tag `%s`): LongNameWithNamespace() = %q, expected %q", f.Name, f.Tag, grpTag, got, wl)
+			return
+		}
+		if got := o.EnvKeyWithNamespace(); got != we {
+			c.Violate("fidelity:namespaced-env-key", "field %s of the nested group (tag `%s`, group tag `%s`): EnvKeyWithNamespace() = %q, expected %q", f.Name, f.Tag, grpTag, got, we)
+			return
+		}
 	}
 	cmds := p.Commands()
 	if len(cmds) != 1 {
